@@ -23,6 +23,8 @@ NGROUP_NAMES = 8      # harness/C12 groupNames[1..8]
 NTOPIC_NAMES = 11     # harness/C12 topicNames[0..10]
 SUB_TOPICS = [0, 1, 2, 3]   # topics used in subscriptions (name order = index order); 3 is never in the metadata
 TIMEOUTS = [10000, 20000, 30000]
+SLASH_GROUPS = {5, 8}          # harness group names containing '/'
+SLASH_TOPICS = {6, 10}         # harness topic names containing '/'
 
 COMMON_ASSUMPTIONS = [
     "sync.Mutex gives mutual exclusion: every coordinator request is one atomic step of the model (the commit race of C13 is the one place where two requests are interleaved, through a gate inside the store)",
@@ -38,15 +40,17 @@ class Gen:
     """Offline generator of one history.  Clients (c<i>) remember the member id of their last join reply,
     exactly like real consumers; `@` is the generation of that reply."""
 
-    def __init__(self, rng, profile):
+    def __init__(self, rng, profile, etcd=False):
         self.r = rng
         self.p = profile
+        self.etcd = etcd          # this history runs on the etcd store: names without '/' (see notes/C16.md)
         self.ops = []
         self.clock = 0
         self.residues = {0}
         self.nticks = 0
         if "group_sets" in profile:
-            self.gids = list(rng.choice(profile["group_sets"]))
+            sets = [gs for gs in profile["group_sets"] if not (etcd and set(gs) & SLASH_GROUPS)] or [[1, 2]]
+            self.gids = list(rng.choice(sets))
         else:
             self.gids = [1] if rng.chance(3, 4) else [1, 2]
         self.ngroups = len(self.gids)
@@ -138,12 +142,24 @@ class Gen:
             for c in cs:
                 self.emit("sync %d c%d @" % (g, c))
 
+    def xtopic(self):
+        while True:
+            t = self.r.below(NTOPIC_NAMES)
+            if not (self.etcd and t in SLASH_TOPICS):
+                return t
+
+    def xgroup(self):
+        while True:
+            g = self.r.range(1, NGROUP_NAMES)
+            if not (self.etcd and g in SLASH_GROUPS):
+                return g
+
     def commit_parts(self, exotic):
         r = self.r
         n = r.choice([1, 1, 1, 2, 3])
         out = []
         for _ in range(n):
-            t = r.below(NTOPIC_NAMES) if exotic else r.choice(SUB_TOPICS)
+            t = self.xtopic() if exotic else r.choice(SUB_TOPICS)
             p = r.choice([0, 0, 1, 2, 5, 10, -1]) if exotic else r.choice([0, 1, 2])
             off = r.choice([0, 1, 5, 41, 42, 100, 2 ** 40, -1])
             out.append((t, p, off, r.choice([0, 0, 1, 2, 3, 4])))
@@ -159,11 +175,11 @@ class Gen:
     def fetch(self, g=None, exotic=False):
         r = self.r
         if g is None:
-            g = r.range(1, NGROUP_NAMES) if (exotic and r.chance(1, 3)) else r.choice(self.gids)
+            g = self.xgroup() if (exotic and r.chance(1, 3)) else r.choice(self.gids)
         n = r.choice([1, 2, 3])
         parts = []
         for _ in range(n):
-            t = r.below(NTOPIC_NAMES) if exotic else r.choice(SUB_TOPICS)
+            t = self.xtopic() if exotic else r.choice(SUB_TOPICS)
             p = r.choice([0, 0, 1, 2, 5, 10, -1]) if exotic else r.choice([0, 1, 2])
             parts.append("%d:%d" % (t, p))
         self.emit("fetch %d %s" % (g, ",".join(parts)))
@@ -211,7 +227,7 @@ class Gen:
     # --- one history
     def history(self, nops):
         r, p = self.r, self.p
-        self.emit("reset")
+        self.emit("reset etcd" if self.etcd else "reset")
         self.set_meta()
         w = p["weights"]
         kinds = [k for k, n in w.items() for _ in range(n)]
@@ -564,8 +580,10 @@ def run_property(ck, prof, monitor, n_quick, n_thorough, nops, rule, variant="",
     n = n_quick if ck.quick() else n_thorough
     ck.cov["rule"] = rule
     hist = [list(h) for h in extra_histories]
+    n_etcd = prof.get("etcd_quick", 0) if ck.quick() else prof.get("etcd_thorough", 0)
     for i in range(n):
-        hist.append(Gen(ck.rng.fork(), prof).history(nops if ck.quick() else nops + 20))
+        hist.append(Gen(ck.rng.fork(), prof, etcd=(i < n_etcd)).history(nops if ck.quick() else nops + 20))
+    ck.count("histories_on_etcd_store", min(n, n_etcd))
     all_ops = [o for h in hist for o in h]
     impl, model, crash = run_both(ck, binary, all_ops, "all", variant)
     if crash:
